@@ -48,7 +48,7 @@ struct Node {
   /// Return false on error.
   bool Stat(DiskInterface* disk_interface, std::string* err);
 
-  /// If the file doesn't exist, set the mtime_ from its dependencies
+  /// Raise the mtime_ of a phony output to that of its newest dependency
   void UpdatePhonyMtime(TimeStamp mtime);
 
   /// Return false on error.
